@@ -24,6 +24,7 @@ fn base(name: &str, t: &str) -> Field {
 }
 fn func(name: &str, args: Vec<Arg>, ret: Option<Ty>, addr: Option<u64>) -> Func {
     Func {
+        more: vec![],
         sty: 0,
         vis: true,
         name: name.into(),
@@ -332,6 +333,40 @@ pub fn demos() -> Vec<Demo> {
             stem: "F35-dotted-file-name",
             prop: "C14/dotted-paths",
             case: l2case(Prog { mods: vec![a, a2] }, 8),
+        });
+    }
+    // F44 (C13): an enum over a type that is not an integer
+    {
+        let var = |n: &str| Variant {
+            sty: 0,
+            name: n.into(),
+            value: None,
+            default: false,
+            doc: vec![],
+        };
+        let en = |name: &str, base: &str| EnumDef {
+            sty: 0,
+            vis: true,
+            name: name.into(),
+            doc: vec![],
+            base: base.into(),
+            variants: vec![var("A"), var("B")],
+            singleton: None,
+            copyable: false,
+            cloneable: false,
+            defaultable: false,
+        };
+        v.push(Demo {
+            property: "C13",
+            stem: "F44-enum-over-an-enum",
+            prop: "C13/name-clashes",
+            case: l2case(Prog { mods: vec![module(&["m"], vec![Item::Enum(en("Tag", "u16")), Item::Enum(en("Mode", "Tag"))])] }, 8),
+        });
+        v.push(Demo {
+            property: "C13",
+            stem: "F44-enum-over-bool",
+            prop: "C13/name-clashes",
+            case: l2case(Prog { mods: vec![module(&["m"], vec![Item::Enum(en("Flag", "bool"))])] }, 8),
         });
     }
     v
